@@ -55,7 +55,7 @@ def coverage_counts(scn):
             if "sh" in d:
                 sh = d["sh"]
                 shapes.add((sh["p"] or "ref%d" % len(sh["ref"]), len(sh["size"]), sh["opt"], sh["wrap"]))
-            if d["k"] in ("app", "type", "ep", "event", "sub", "rest", "method", "block", "oneof", "choice"):
+            if d["k"] in ("app", "type", "inplace", "ep", "event", "sub", "rest", "method", "block", "oneof", "choice"):
                 scope.append(d["k"] if d["k"] != "block" else d["kw"])
     return len(kinds), len(shapes)
 
@@ -246,7 +246,7 @@ def with_redeclared_fields(scn, vary=False):
     later declaration takes the type of another field declared earlier in the same application: the later type is the
     field's type (StepField in Frontend.tla)."""
     import copy
-    opens = ("app", "type", "ep", "event", "sub", "rest", "method", "block", "oneof", "choice")
+    opens = ("app", "type", "inplace", "ep", "event", "sub", "rest", "method", "block", "oneof", "choice")
     n = 0
     for s in scn:
         out, seen, stack, cur_app = [], {}, [], None
@@ -374,7 +374,7 @@ def check_c03(ctx):
         "a corpus file that does not compile as it stands contributes only the acceptance half"])
 
 
-OPENERS = {"app", "type", "ep", "event", "sub", "rest", "method", "block", "oneof", "choice"}
+OPENERS = {"app", "type", "inplace", "ep", "event", "sub", "rest", "method", "block", "oneof", "choice"}
 
 
 def split_blocks(decls):
